@@ -340,8 +340,11 @@ def _inv(*items):
     return inv
 
 
+COST2 = position.Cost(D('120.00'), 'USD', datetime.date(2019, 2, 5), None)
 INVENTORIES = [_inv(), _inv((A(D('1.50'), 'USD'), None)), _inv((A(D('2'), 'HOOL'), COST), (A(D('-3.25'), 'USD'), None)),
-               _inv((A(D('200'), 'JPY'), None), (A(D('1.50'), 'USD'), None), (A(D('1'), 'HOOL'), None)), None]
+               _inv((A(D('200'), 'JPY'), None), (A(D('1.50'), 'USD'), None), (A(D('1'), 'HOOL'), None)), None,
+               # two lots of one commodity (followed, in another row, by a single lot of it)
+               _inv((A(D('2'), 'HOOL'), COST), (A(D('3'), 'HOOL'), COST2)), _inv((A(D('1'), 'HOOL'), COST2))]
 
 
 def _amount_like_check(kind, i, j, boxed, expand, nullvalue):
@@ -392,7 +395,8 @@ def make_amount_like(kind):
           symbolic='(none)', enumerated='cells, options',
           params={'i': int, 'j': int, 'boxed': bool, 'expand': bool, 'nv': int}, group='C16.amount')
     def amount_like(i, j, boxed, expand, nv):
-        i, j = enum_int(i, 0, 4), enum_int(j, 0, 4)
+        top = len(INVENTORIES) - 1 if kind == 'inventory' else 4
+        i, j = enum_int(i, 0, top), enum_int(j, 0, top)
         nullvalue = pick(NULLS, nv)
         try:
             return native(_amount_like_check, kind, i, j, bool(boxed), bool(expand), nullvalue)
@@ -441,7 +445,7 @@ def _expand_rows_check(ncols, picks, boxed, expand, spaced, as_csv):
       group='C16.amount')
 def expand_rows(two, a, b, c, d, boxed, expand, spaced, as_csv):
     two = bool(two)
-    n = len(INVENTORIES) - 1
+    n = 4       # the first five palette entries
     picks = [(enum_int(a, 0, n), enum_int(b, 0, n) if two else 0), (enum_int(c, 0, n), enum_int(d, 0, n) if two else 0)]
     try:
         return native(_expand_rows_check, 2 if two else 1, picks, bool(boxed), bool(expand), bool(spaced), bool(as_csv))
